@@ -115,3 +115,168 @@ pub fn response(a: &Value) -> Value {
     why.truncate(5);
     json!({"scenario":"c15_response","observed":{"texts":n},"violation":!why.is_empty(),"why":why.join(" | ")})
 }
+
+/// what the library writes for a response: exactly the members jsonrpc (when the value has one), id, and one of result / error -
+/// each the value's own - and the text parses back to an equal response
+fn id_json(id: &Id) -> Value {
+    // the JSON an id is, independently of the library's serializer
+    match id {
+        Id::Null => Value::Null,
+        Id::Number(n) => json!(n),
+        Id::Str(s) => json!(s.as_ref()),
+    }
+}
+
+pub fn serialize(_a: &Value) -> Value {
+    use jsonrpsee_types::ResponsePayload;
+    let mut why = vec![];
+    let mut n = 0;
+    let ids = vec![Id::Null, Id::Number(0), Id::Number(u64::MAX), Id::Str("".into()), Id::Str("a\"b\\c\u{1F600}".into())];
+    for id in &ids {
+        for version in [true, false] {
+            for success in [true, false] {
+                n += 1;
+                let payload: ResponsePayload<Value> = if success {
+                    ResponsePayload::success(json!({"error": 1, "id": 2, "result": [3]}))
+                } else {
+                    ResponsePayload::error(ErrorObjectOwned::owned(-32001, "msg \"quoted\"", Some(json!({"result": 1}))))
+                };
+                let mut r = Response::new(payload, id.clone());
+                if !version {
+                    r.jsonrpc = None;
+                }
+                let text = match serde_json::to_string(&r) {
+                    Ok(t) => t,
+                    Err(e) => {
+                        why.push(format!("serialisation failed: {e}"));
+                        continue;
+                    }
+                };
+                let Ok(Members(ms)) = serde_json::from_str::<Members>(&text) else {
+                    why.push(format!("not a JSON object: {text}"));
+                    continue;
+                };
+                let mut want: Vec<(String, Value)> = vec![];
+                if version {
+                    want.push(("jsonrpc".into(), json!("2.0")));
+                }
+                want.push(("id".into(), id_json(id)));
+                if success {
+                    want.push(("result".into(), json!({"error": 1, "id": 2, "result": [3]})));
+                } else {
+                    want.push(("error".into(), json!({"code": -32001, "message": "msg \"quoted\"", "data": {"result": 1}})));
+                }
+                let mut got = ms.clone();
+                got.sort_by(|a, b| a.0.cmp(&b.0));
+                want.sort_by(|a, b| a.0.cmp(&b.0));
+                if got != want {
+                    why.push(format!("members written {text} differ from the value's own {want:?}"));
+                    continue;
+                }
+                // parses back to an equal value, and re-serialises to the same bytes
+                match serde_json::from_str::<Response<Value>>(&text) {
+                    Ok(back) => {
+                        let again = serde_json::to_string(&back).unwrap_or_default();
+                        if version && again != text {
+                            why.push(format!("re-serialising gives {again} instead of {text}"));
+                        }
+                        if back.id != *id {
+                            why.push(format!("id {:?} came back as {:?}", id, back.id));
+                        }
+                    }
+                    Err(e) => why.push(format!("own output does not parse back: {e}: {text}")),
+                }
+            }
+        }
+    }
+    // the other objects the library writes: members exactly as JSON-RPC 2.0 has them, and the text parses back to an equal value
+    use jsonrpsee_types::{Notification, Request, SubscriptionId, SubscriptionPayload};
+    let members = |text: &str| -> Option<Vec<(String, Value)>> { serde_json::from_str::<Members>(text).ok().map(|m| m.0) };
+    let raw = serde_json::value::to_raw_value(&json!([1, {"method": "x"}])).unwrap();
+    for id in &ids {
+        for params in [None, Some(&*raw)] {
+            n += 1;
+            let rq = Request::borrowed("say \"hi\"", params, id.clone());
+            let text = serde_json::to_string(&rq).unwrap_or_default();
+            let mut want = vec![("jsonrpc".to_string(), json!("2.0")), ("id".into(), id_json(id)), ("method".into(), json!("say \"hi\""))];
+            if params.is_some() {
+                want.push(("params".into(), json!([1, {"method": "x"}])));
+            }
+            if members(&text) != Some(want.clone()) {
+                why.push(format!("request written as {text}, expected members {want:?}"));
+                continue;
+            }
+            match serde_json::from_str::<Request>(&text) {
+                Ok(back) => {
+                    if back.id != *id || back.method != "say \"hi\"" || back.params.as_ref().map(|p| p.get().to_string()) != params.map(|p| p.get().to_string()) {
+                        why.push(format!("request {text} parses back differently"));
+                    }
+                    if serde_json::to_string(&back).unwrap_or_default() != text {
+                        why.push(format!("request {text} re-serialises differently"));
+                    }
+                }
+                Err(e) => why.push(format!("own request does not parse back: {e}: {text}")),
+            }
+        }
+    }
+    {
+        n += 1;
+        let nt = Notification::new("evt".into(), json!({"id": 1}));
+        let text = serde_json::to_string(&nt).unwrap_or_default();
+        let want = vec![("jsonrpc".to_string(), json!("2.0")), ("method".into(), json!("evt")), ("params".into(), json!({"id": 1}))];
+        if members(&text) != Some(want.clone()) {
+            why.push(format!("notification written as {text}, expected members {want:?}"));
+        }
+        let nt = Notification::new("evt".into(), Option::<Value>::None);
+        let text = serde_json::to_string(&nt).unwrap_or_default();
+        let want = vec![("jsonrpc".to_string(), json!("2.0")), ("method".into(), json!("evt")), ("params".into(), Value::Null)];
+        if members(&text) != Some(want.clone()) {
+            why.push(format!("notification written as {text}, expected members {want:?}"));
+        }
+        for sid in [SubscriptionId::Num(u64::MAX), SubscriptionId::Str("s\"1".into())] {
+            n += 1;
+            let sp = Notification::new("sub".into(), SubscriptionPayload { subscription: sid.clone(), result: json!([1]) });
+            let text = serde_json::to_string(&sp).unwrap_or_default();
+            let inner = vec![("subscription".to_string(), match &sid { SubscriptionId::Num(n) => json!(n), SubscriptionId::Str(t) => json!(t.as_ref()) }), ("result".into(), json!([1]))];
+            let got = members(&text).and_then(|ms| ms.iter().find(|(k, _)| k == "params").map(|(_, v)| v.clone()));
+            let mut got_inner = got.as_ref().and_then(|v| members(&v.to_string()));
+            let mut inner = inner;
+            inner.sort_by(|a, b| a.0.cmp(&b.0));
+            if let Some(g) = got_inner.as_mut() {
+                g.sort_by(|a, b| a.0.cmp(&b.0));
+            }
+            if got_inner != Some(inner.clone()) {
+                why.push(format!("subscription notification written as {text}, expected params members {inner:?}"));
+            }
+            match serde_json::from_str::<Notification<SubscriptionPayload<Value>>>(&text) {
+                Ok(back) => {
+                    if back.params.subscription != sid || back.params.result != json!([1]) {
+                        why.push(format!("subscription notification {text} parses back differently"));
+                    }
+                }
+                Err(e) => why.push(format!("own subscription notification does not parse back: {e}: {text}")),
+            }
+        }
+        for (data, has) in [(None, false), (Some(json!({"code": 1})), true)] {
+            n += 1;
+            let e = ErrorObjectOwned::owned(-32000, "m", data.clone());
+            let text = serde_json::to_string(&e).unwrap_or_default();
+            let mut want = vec![("code".to_string(), json!(-32000)), ("message".into(), json!("m"))];
+            if has {
+                want.push(("data".into(), json!({"code": 1})));
+            }
+            if members(&text) != Some(want.clone()) {
+                why.push(format!("error object written as {text}, expected members {want:?}"));
+            }
+            match serde_json::from_str::<ErrorObjectOwned>(&text) {
+                Ok(back) => {
+                    if back != e {
+                        why.push(format!("error object {text} parses back differently"));
+                    }
+                }
+                Err(er) => why.push(format!("own error object does not parse back: {er}: {text}")),
+            }
+        }
+    }
+    json!({"scenario":"c15_serialize","observed":{"values":n},"violation":!why.is_empty(),"why":why.join(" | ")})
+}
